@@ -719,10 +719,12 @@ func (w *world) readRetained(height uint32) error {
 			return err
 		}
 		var seek []storage.KeyValue
-		w.mod.SeekStates(w.rootOf(height), []byte{fb}, func(k, v []byte) bool {
+		if err, pan := seekStates(w.mod, w.rootOf(height), []byte{fb}, func(k, v []byte) bool {
 			seek = append(seek, storage.KeyValue{Key: append([]byte{fb}, k...), Value: bytes.Clone(v)})
 			return true
-		})
+		}); err != nil || pan != nil {
+			return fmt.Errorf("SeekStates(root of height %d, prefix %02x): error %v, panic %v; the state is retained (current height %d, GC height %d)", height, fb, err, pan, w.h, w.lastG)
+		}
 		if err := cmpKV(fmt.Sprintf("SeekStates(root of height %d, prefix %02x)", height, fb), seek, want); err != nil {
 			return err
 		}
@@ -766,6 +768,30 @@ func (w *world) probeUnretained(height uint32) error {
 			}
 		}
 		if err := cmpKV(fmt.Sprintf("FindStates(unretained root of height %d, prefix %02x) without error", height, fb), got, want); err != nil {
+			return err
+		}
+	}
+	// SeekStates (the range scan behind findstoragehistoric and the state upload tool): it either reports an error or
+	// calls back with exactly the content of that state
+	for _, fb := range w.firstBytes() {
+		var want, seek []storage.KeyValue
+		for _, k := range keys {
+			if k[0] == fb {
+				want = append(want, storage.KeyValue{Key: []byte(k), Value: s.content[k]})
+			}
+		}
+		err, pan := seekStates(w.mod, w.rootOf(height), []byte{fb}, func(k, v []byte) bool {
+			seek = append(seek, storage.KeyValue{Key: append([]byte{fb}, k...), Value: bytes.Clone(v)})
+			return true
+		})
+		if err != nil || pan != nil {
+			clean = false
+			if pan != nil {
+				w.o.Label("unretained-seek-panics")
+			}
+			continue
+		}
+		if err := cmpKV(fmt.Sprintf("SeekStates(unretained root of height %d, prefix %02x) without error", height, fb), seek, want); err != nil {
 			return err
 		}
 	}
@@ -1175,4 +1201,23 @@ func init() {
 	vt.PropertyID = "C11"
 	vt.Register("history", 1.0, genCase, checkCase)
 	vt.Register("trieops", 0.5, genTrieCase, checkTrieCase)
+}
+
+// seekStates calls Module.SeekStates whatever its result list is (the error result was added by the repair of
+// finding `seekstates-unretained-root-silently-empty`), returning its error and a recovered panic.
+func seekStates(m any, root util.Uint256, prefix []byte, f func(k, v []byte) bool) (err error, pan any) {
+	defer func() { pan = recover() }()
+	switch sm := m.(type) {
+	case interface {
+		SeekStates(util.Uint256, []byte, func(k, v []byte) bool) error
+	}:
+		err = sm.SeekStates(root, prefix, f)
+	case interface {
+		SeekStates(util.Uint256, []byte, func(k, v []byte) bool)
+	}:
+		sm.SeekStates(root, prefix, f)
+	default:
+		panic("stateroot.Module has no SeekStates method")
+	}
+	return
 }
